@@ -182,7 +182,8 @@ def flp : P String := do
     if !optimalPairB n rows c x y then return "skip certificate_rejected" else
     let opt := dualVal rows y
     if st != "some" then
-      return (v.failIf true s!"FactoredLP no_solution status={st} flat_optimum={ratStr opt}").render
+      let kind := if rec.solveRes == 5 || rec.solveRes == 25 then "lp_solve_numerical_failure" else "no_solution"
+      return (v.failIf true s!"FactoredLP {kind} status={st} lp_solve_result={rec.solveRes} flat_optimum={ratStr opt}").render
     let v := v.failIf (w.length != n - 1) s!"FactoredLP wrong_weight_count {w.length}"
     let phiW := flpMaxErr S C b addConst w
     let kind := if C.isEmpty && addConst then "error_not_minimal_no_basis" else "error_not_minimal"
@@ -243,7 +244,9 @@ def mdp : P String := do
     if !optimalPairB n rows c x y then return "skip certificate_rejected" else
     let opt := dualVal rows y
     if st != "some" then
-      return (v.failIf true s!"LinearProgramming spurious_infeasible{sfx} status={st} flat_optimum={ratStr opt}").render
+      -- lp_solve's own numerical failure codes (NUMFAILURE 5, ACCURACYERROR 25) are a different clause than a wrong LP
+      let kind := if rec.solveRes == 5 || rec.solveRes == 25 then "lp_solve_numerical_failure" else s!"spurious_infeasible{sfx}"
+      return (v.failIf true s!"LinearProgramming {kind} status={st} lp_solve_result={rec.solveRes} flat_optimum={ratStr opt}").render
     let v := v.failIf (w.length != n) s!"LinearProgramming wrong_weight_count {w.length}"
     let scale := 1 + maxAbs w
     let v := match rows.find? (fun r => !r.satB n (tol7 * scale) w) with
